@@ -52,6 +52,13 @@ NEG = [
     ("Orientation", "MC_Orientation_neg_sincos", "Cardinals"),
     ("Orientation", "MC_Orientation_neg_sign", "Cardinals"),
     ("Cache", "MC_Cache_sim_neg_key", "SIM"),
+    ("KMTypes", "MC_KMTypes_neg_like", "NoLossyStore"),
+    ("KMGrid", "MC_KMGrid_neg_cw", None),
+    ("KMGrid", "MC_KMGrid_neg_rows", "Coordinates"),
+    ("KMGrid", "MC_KMGrid_neg_ge", None),
+    ("KMZ0", "MC_KMZ0_neg_nowrap", "WindowIsCircular"),
+    ("KMZ0", "MC_KMZ0_neg_onesided", None),
+    ("KMZ0", "MC_KMZ0_neg_wide", "WindowIsCircular"),
 ]
 
 
@@ -268,10 +275,10 @@ def faithful():
     try:
         env = dict(os.environ, BLDFM_REPO=wt, PYTHONPATH=common.VERIF, BLDFM_VERIF="1", PYTHONHASHSEED="0")
         cwd = common.scratch("selftest_faithful")
-        p = subprocess.run([common.PY, "-m", "harness.faithful", "Recip", "Conserve", "Linear", "Translate", "Symmetry", "Mirror", "Levels", "Shape"], cwd=cwd, env=env, stdout=subprocess.PIPE, stderr=subprocess.STDOUT, text=True)
+        p = subprocess.run([common.PY, "-m", "harness.faithful", "Recip", "Conserve", "Linear", "Translate", "Symmetry", "Mirror", "Levels", "Shape", "KMTypes"], cwd=cwd, env=env, stdout=subprocess.PIPE, stderr=subprocess.STDOUT, text=True)
         lines = [l for l in p.stdout.splitlines() if l.startswith(("FAITHFUL", "DISAGREE"))]
         print("\n".join(lines))
-        return 0 if p.returncode == 0 and len([l for l in lines if l.startswith("FAITHFUL")]) == 8 and not any(l.startswith("DISAGREE") for l in lines) else 1
+        return 0 if p.returncode == 0 and len([l for l in lines if l.startswith("FAITHFUL")]) == 9 and not any(l.startswith("DISAGREE") for l in lines) else 1
     finally:
         subprocess.run(["git", "-C", "/repo", "worktree", "remove", "--force", wt], stdout=subprocess.DEVNULL, stderr=subprocess.DEVNULL)
         shutil.rmtree(wt, ignore_errors=True)
